@@ -749,8 +749,8 @@ def _value_clause(n, b, feats):
 
 
 SUBCHECKS = [
-    SubCheck('pred', lambda: PRED_SPEC, run_case, quick=220, thorough=1140, quick_time=240, thorough_time=3000),
-    SubCheck('advan', lambda: ADVAN_SPEC, run_case, quick=220, thorough=1140, quick_time=240, thorough_time=3000),
+    SubCheck('pred', lambda: PRED_SPEC, run_case, quick=220, thorough=2280, quick_time=240, thorough_time=3000),
+    SubCheck('advan', lambda: ADVAN_SPEC, run_case, quick=220, thorough=2280, quick_time=240, thorough_time=3000),
 ]
 
 
@@ -1001,8 +1001,8 @@ def run_struct(spec):
 
 from .. import modeleval  # noqa: E402
 
-SUBCHECKS.append(SubCheck('logic', lambda: LOGIC_SPEC, run_case, quick=200, thorough=1000, quick_time=240, thorough_time=3000))
-SUBCHECKS.append(SubCheck('struct', lambda: STRUCT_SPEC, run_struct, quick=160, thorough=830, quick_time=240, thorough_time=3000))
+SUBCHECKS.append(SubCheck('logic', lambda: LOGIC_SPEC, run_case, quick=200, thorough=2000, quick_time=240, thorough_time=3000))
+SUBCHECKS.append(SubCheck('struct', lambda: STRUCT_SPEC, run_struct, quick=160, thorough=1660, quick_time=240, thorough_time=3000))
 
 
 # ==========================================================================================
@@ -1136,4 +1136,4 @@ def run_blocks(spec):
     return CaseInfo(nontrivial=partial and max(nbl) >= 2, classes=tuple(classes), render=text, evals=used)
 
 
-SUBCHECKS.append(SubCheck('blocks', lambda: BLOCK_SPEC, run_blocks, quick=240, thorough=1250, quick_time=240, thorough_time=3000))
+SUBCHECKS.append(SubCheck('blocks', lambda: BLOCK_SPEC, run_blocks, quick=240, thorough=2500, quick_time=240, thorough_time=3000))
